@@ -284,6 +284,7 @@ func c14Loop(tp *Tape, env *Env) (*Plan, *Violation) {
 		sb.WriteString(l + " {$n}\n")
 	}
 	var dyn []string
+	failLine := false
 	if tp.Chance(50, "dynline") {
 		// one statement whose text is an inline expression only: plain the first time it is shown, then markup,
 		// a speaker prefix, plain again ... - what it parses to is a function of the substituted line alone
@@ -302,7 +303,13 @@ func c14Loop(tp *Tape, env *Env) (*Plan, *Violation) {
 			fmt.Fprintf(&chain, "<<%s $n == %d>>\n    <<set $m = \"%s\">>\n", kw, r, dyn[r])
 		}
 		chain.WriteString("<<endif>>\n")
-		sb.WriteString(chain.String() + "DYN {$m}\n")
+		sb.WriteString(chain.String())
+		if tp.Chance(40, "failinginterpolation") {
+			// a line whose inline expression fails at run time, right before the dynamic line
+			sb.WriteString("FAIL some text {nosuchfunction()} more\n")
+			failLine = true
+		}
+		sb.WriteString("DYN {$m}\n")
 	}
 	fmt.Fprintf(&sb, "<<if $n < %d>>\n    <<jump Hub>>\n<<endif>>\n===\n", rounds)
 	text := sb.String()
@@ -310,7 +317,7 @@ func c14Loop(tp *Tape, env *Env) (*Plan, *Violation) {
 		text = strings.Replace(text, "<<declare $n = 0>>\n", "<<declare $n = 0>>\n<<declare $m = \"\">>\n", 1)
 	}
 	w := World{Readers: []ReaderSpec{{Text: text}}, Host: HostSpec{Storer: "default", Seed: "s1"}}
-	plan := &Plan{Harness: 1, Property: "C14", World: w, Extra: map[string]any{"loop": true, "shared": ns, "filler": nf, "rounds": rounds, "loop_options": nopt, "dyn": dyn}}
+	plan := &Plan{Harness: 1, Property: "C14", World: w, Extra: map[string]any{"loop": true, "shared": ns, "filler": nf, "rounds": rounds, "loop_options": nopt, "dyn": dyn, "fail_line": failLine}}
 	env.St.sample(map[string]any{"script": text})
 	journal(plan)
 	return plan, c14LoopExec(plan, env.St)
@@ -331,7 +338,11 @@ func c14LoopExec(plan *Plan, st *Stats) *Violation {
 		per++
 	}
 	dyn, _ := decodeExtra[[]string](plan, "dyn")
+	failLine, _ := plan.Extra["fail_line"].(bool)
 	if len(dyn) > 0 {
+		per++
+	}
+	if failLine {
 		per++
 	}
 	first := make([]string, ns+1)
@@ -339,6 +350,15 @@ func c14LoopExec(plan *Plan, st *Stats) *Violation {
 	for step := 0; step < rounds*per; step++ {
 		r, el := h.NextEl(0)
 		idx, round := step%per, step/per
+		if failLine && idx == per-2 {
+			if r.Kind != rError {
+				return nil // not the error this world was built around: nothing to compare
+			}
+			if st != nil && round == 0 {
+				st.probe("interpolation_failed_right_before_an_interpolated_line")
+			}
+			continue
+		}
 		if len(dyn) > 0 && idx == per-1 {
 			// the dynamic line: exactly what a fresh parser makes of the substituted text
 			if round+1 >= len(dyn) {
